@@ -357,7 +357,9 @@
                 "\r\n")))
     (let* ((prefix (string-append "=?" encoding "?B?"))
            (prefix-length (+ 2 (string-length prefix)))
-           (effective-max-col (round4 (- max-col prefix-length)))
+           ;; one less for the tab which starts each continuation line
+           ;; (and for the 75 character limit on an encoded-word)
+           (effective-max-col (round4 (- max-col prefix-length 1)))
            (first-max-col (round4 (- effective-max-col start-col)))
            (str (base64-encode-string str))
            (len (string-length str)))
